@@ -11,7 +11,12 @@
 //! `TerminateGuard` alive.
 //!
 //! Note that scope can get canceled even if `CancelGuard` is still alive.
-use std::sync::{Arc, Mutex};
+use std::sync::Arc;
+#[cfg(not(era_consensus_verif))]
+use std::sync::Mutex;
+
+#[cfg(era_consensus_verif)]
+use crate::verif::sync_shim::Mutex;
 
 use crate::{ctx, signal};
 
@@ -81,8 +86,6 @@ impl<E: 'static> TerminateGuard<E> {
     pub(super) fn set_err(&self, err: OrPanic<E>) {
         #[cfg(era_consensus_verif)]
         crate::verif::preempt();
-        #[cfg(era_consensus_verif)]
-        let _no_preempt = crate::verif::NoPreempt::new();
         let mut m = self.0.err.lock().unwrap();
         match (&*m, &err) {
             // Panic overrides an error, but error doesn't override an error.
